@@ -162,6 +162,35 @@ def _receiver_from_cli(broker: Any, case: Dict[str, Any]) -> Any:
     return rec
 
 
+def _receiver_from_api(broker: Any, case: Dict[str, Any], loop: Any) -> Any:
+    """The Receiver as taskiq.api.run_receiver_task builds it - the SECOND one, created after listening failed once
+    (lost broker connection): the options asked for must survive the restart."""
+    import asyncio
+
+    from taskiq.api import run_receiver_task
+
+    built: List[Any] = []
+
+    class CaptureReceiver(Receiver):
+        async def listen(self, finish_event: Any) -> None:  # type: ignore[override]
+            built.append(self)
+            if len(built) == 1:
+                raise ConnectionError("broker connection lost")
+            raise asyncio.CancelledError
+
+    async def main() -> None:
+        try:
+            await run_receiver_task(broker, receiver_cls=CaptureReceiver, validate_params=case.get("parse", True), max_async_tasks=3,
+                                    propagate_exceptions=not case.get("noprop", False), sync_workers=2)
+        except asyncio.CancelledError:
+            pass
+
+    loop.run_coro(main())
+    rec = built[-1]
+    rec.executor = InlineExecutor()
+    return rec
+
+
 def run(case: Dict[str, Any]) -> Dict[str, Any]:
     sig = case["sig"]
     rng = random.Random(repr(case.get("seed", 0)))
@@ -241,6 +270,8 @@ def run(case: Dict[str, Any]) -> Dict[str, Any]:
         rt_ok = broker.formatter.loads(broker.formatter.dumps(tm).message) == tm
         if case.get("via") == "cli" and receiver_early is None:
             receiver = _receiver_from_cli(broker, case)
+        elif case.get("via") == "api" and receiver_early is None:
+            receiver = _receiver_from_api(broker, case, loop)
         else:
             receiver = receiver_early or Receiver(broker, executor=InlineExecutor(), validate_params=case.get("parse", True), run_startup=False)
         loop.run_coro(receiver.callback(bm.message))
